@@ -2,7 +2,8 @@
 texts; the outputs must be byte-identical across seeds."""
 import sys
 
-sys.path.insert(0, "/verif")
+import os
+sys.path.insert(0, os.path.dirname(os.path.dirname(os.path.abspath(__file__))))
 from harness import common, layerb as B, schemes as S  # noqa: E402
 
 from univers.version_constraint import VersionConstraint  # noqa: E402
